@@ -496,15 +496,18 @@ func c16Run(c *fw.Case, env *fw.Env) *fw.Obs {
 			o.Note = err.Error()
 			return o
 		}
-		f1, f2 := filepath.Join(root, "a.csv"), filepath.Join(root, "b.csv")
+		f1, f2, f3 := filepath.Join(root, "a.csv"), filepath.Join(root, "b.csv"), filepath.Join(root, "c.csv")
 		os.WriteFile(f1, c16Table(p.Blocks, 1), 0644)
 		os.WriteFile(f2, c16Table(p.Blocks, 2), 0644)
+		os.WriteFile(f3, c16Table(p.Blocks, 3), 0644)
 		steps := [][]string{
 			{"commit", "main", f1, "one", "-p", "id", "-n", fmt.Sprint(p.Workers)},
 			{"branch", "create", "other", "main"},
 			{"commit", "other", f2, "two", "-p", "id", "-n", fmt.Sprint(p.Workers)},
+			{"commit", "main", f3, "three", "-p", "id", "-n", fmt.Sprint(p.Workers)}, // main moves on too: the merge below is a real one
 			{"diff", "main", "other", "--no-gui"},
-			{"merge", "main", "other", "-n", fmt.Sprint(p.Workers)},
+			{"diff", f1, f2, "--no-gui", "-p", "id", "-n", fmt.Sprint(p.Workers)}, // two files: both are ingested into the in-memory store
+			{"merge", "main", "other", "-n", fmt.Sprint(p.Workers)},               // the merged table is ingested from the collector's blocks
 		}
 		for _, st := range steps {
 			var out string
